@@ -105,6 +105,36 @@ def from_call(b, op, name, depth=0):
     return False
 
 
+def is_charlike(ty):
+    """the scrutinee of a character table: a `char`, or a byte of the text (ASCII arms only)"""
+    return "char" in ty or ty == "u8"
+
+
+def byte_to_char_casts(prog, body):
+    """`byte as char` casts in a body and its closures: (body, block, line, guarded) where guarded means the cast is control-dependent
+    on an ASCII test of some byte (`is_ascii*` or a comparison with 128 / 0x7f)"""
+    out = []
+    for x in prog.family(body.key):
+        ascii_blocks = set()
+        for c in x.calls():
+            if c.name().startswith("is_ascii"):
+                ascii_blocks.add(c.bb)
+        for bb, i, pl, rv, s in x.assigns():
+            if rv["rv"] == "binop" and rv["op"] in ("Lt", "Le", "Gt", "Ge"):
+                for o in (rv["a"], rv["b"]):
+                    if o.get("k") == "const" and str(o.get("v")) in ("128", "127") or str(o.get("d", "")).startswith(("128_u8", "127_u8", "0x80", "0x7f")):
+                        ascii_blocks.add(bb)
+        for bb, i, pl, rv, s in x.assigns():
+            if rv["rv"] != "cast" or rv.get("ty") != "char":
+                continue
+            src = F.op_place(rv["op"])
+            if src is None or x.local_ty(src["l"]) != "u8":
+                continue
+            guarded = any(x.dominates(g, bb) and g != bb for g in ascii_blocks)
+            out.append((x, bb, s["ln"], guarded))
+    return out
+
+
 def char_switch_table(prog, body, want="str"):
     """for a match on a char: {char -> what the arm produces}. For `want == 'str'` the string constants used in the arm,
     for `want == 'push'` the char constants pushed in the arm."""
@@ -114,19 +144,21 @@ def char_switch_table(prog, body, want="str"):
             if t["t"] != "switch":
                 continue
             dl = F.op_place(t["discr"])
-            if dl is None or "char" not in x.local_ty(dl["l"]):
+            if dl is None or not is_charlike(x.local_ty(dl["l"])):
                 continue
             for v, tgt in t["targets"]:
                 try:
                     ch = chr(int(v))
                 except ValueError:
                     continue
+                if x.local_ty(dl["l"]) == "u8" and int(v) >= 128:
+                    continue
                 region = {k for k in x.reachable_blocks() if x.dominates(tgt, k)} if x.pred(tgt) == [bb] else {tgt}
                 # arms of a nested char match belong to that match, not to this arm
                 for b3, t3 in x.terms():
                     if b3 in region and b3 != bb and t3["t"] == "switch":
                         d3 = F.op_place(t3["discr"])
-                        if d3 is not None and "char" in x.local_ty(d3["l"]):
+                        if d3 is not None and is_charlike(x.local_ty(d3["l"])):
                             for s3 in x.succ(b3):
                                 region -= {k for k in region if x.dominates(s3, k)}
                 vals = []
@@ -217,6 +249,15 @@ def run(R):
         for ch in ['"', "\\", "\n", "\r"]:
             R.ob("C14-R2", "terminator:%r" % ch, "the writer escapes the terminator character %r" % ch, ch in wpairs, where=esc.where(),
                  detail=None if ch in wpairs else "the line-oriented readers would cut the literal at this character")
+        # pass-through: whatever is not escaped is copied character by character; a byte of a multi-byte character cast to a
+        # char on its own writes a different character (seeded change C14a)
+        ncast = 0
+        for fn in (esc, dec):
+            for x, bb, ln, guarded in byte_to_char_casts(prog, fn):
+                ncast += 1
+                R.ob("C14-R2", "byte-as-char:%s:%d" % (fn.name, ncast), "%s turns a byte into a char only under an ASCII test of it" % fn.name, guarded,
+                     where=x.where(ln), detail=None if guarded else "each byte of a multi-byte UTF-8 character is written as a character of its own")
+        R.ob("C14-R2", "pass-through", "writer and decoder copy unescaped text without unguarded byte-to-char casts (%d casts seen)" % ncast, True)
     # ---- R3
     for nm in ("clean_ntriples_term", "clean_turtle_term"):
         b = R.body("C14-R3", "SparqlDatabase::" + nm, crate="kolibrie")
